@@ -185,7 +185,17 @@ func seq1(k int) []int {
 func c09Scenarios(tier string) []e1lib.Scenario {
 	var out []e1lib.Scenario
 	add := func(c forkh.Cfg, bound int) {
-		out = append(out, e1lib.Scenario{Name: forkName(c), Root: func() { forkh.Scenario(c) }, Check: c09Check(c), Bound: bound, Sample: c, Sym: true})
+		var done []string
+		if !c.Cancel && c.Stop == -1 && (c.Stage != "partition" || c.Stop2 == -1) && c.ErrRd != "none" && c.Mode != "lift" {
+			_, _, names := forkRef(c)
+			for _, n := range names {
+				done = append(done, n+"-eof")
+			}
+			if c.Stage == "map" || c.Stage == "fmap" {
+				done = append(done, "err-eof")
+			}
+		}
+		out = append(out, e1lib.Scenario{Name: forkName(c), Root: func() { forkh.Scenario(c) }, Check: c09Check(c), Bound: bound, Sample: c, Sym: true, RealDone: done})
 	}
 	type pk struct{ par, k int }
 	sizes := []pk{{1, 0}, {1, 1}, {1, 2}, {1, 3}, {2, 0}, {2, 1}, {2, 2}, {2, 3}, {3, 1}, {3, 2}}
